@@ -215,7 +215,7 @@ def gen(tier, rng):
 def post(cases, tier):
     """guards of the machinery itself: a refusal (`nothing`) is no disagreement, but wholesale refusal would empty the check"""
     out = []
-    ran = [c for c in cases if c.impl not in (None, 'no-harness')]
+    ran = [c for c in cases if c.impl not in (None, 'no-harness') and 'kind-slice' not in c.tags]     # the kind slice contains refused requests on purpose
     refused = [c for c in ran if c.impl == 'nothing']
     if ran and len(refused) * 20 > len(ran):
         out.append(('refusals', 'IMPL refused (Nothing) %d of %d instances NumPy accepts, e.g. %s: the static knowledge of those types is not exercised' % (
@@ -224,7 +224,7 @@ def post(cases, tier):
 
 
 def coverage_extra(cases, tier):
-    refused = sum(1 for c in cases if c.impl == 'nothing')
+    refused = sum(1 for c in cases if c.impl == 'nothing' and 'kind-slice' not in c.tags)
     agree = total = 0
     for c in cases:
         if c.impl and c.impl.startswith('ok ') and c.oracle:
